@@ -958,6 +958,28 @@ func IntegerOnly(tables []TableSpec) bool {
 	return true
 }
 
+// FailingUpdate builds an UPDATE of an existing row that the database rejects after the row was found: it
+// assigns NULL to a NOT NULL column (error 1048). nil when no table has such a column and a row.
+func FailingUpdate(t *rapid.T, tables []TableSpec) *Stmt {
+	for ti, tb := range tables {
+		if len(tb.Rows) == 0 {
+			continue
+		}
+		for j, c := range tb.Cols {
+			if j < len(tb.PK) || c.Nullable || reservedNames[strings.ToLower(c.Name)] {
+				continue
+			}
+			row := tb.Rows[rapid.IntRange(0, len(tb.Rows)-1).Draw(t, "failRow")]
+			var conds []string
+			for k, pk := range tb.PK {
+				conds = append(conds, pk+" = "+row[k].SQL())
+			}
+			return &Stmt{Kind: "update", Table: ti, SQL: fmt.Sprintf("UPDATE {T%d} SET %s = NULL WHERE %s", ti, c.Name, strings.Join(conds, " AND ")), SetCols: []string{c.Name}, Where: "pk-eq", Classes: []string{"rejected-update"}}
+		}
+	}
+	return nil
+}
+
 // DupInsert is dupInsert for other packages.
 func DupInsert(t *rapid.T, tables []TableSpec) *Stmt { return dupInsert(t, tables) }
 
